@@ -1,6 +1,7 @@
 package main
 
 import (
+	"bytes"
 	"encoding/json"
 	"fmt"
 	"math/rand"
@@ -536,6 +537,43 @@ func genC18(out, tier string, rng *rand.Rand) {
 		}
 	}
 	runConcJobs(sink, jobs)
+	// a table that lives in table files (15 MB), cleared once, twice, cleared-written-cleared while one
+	// scan is parked at its hand-overs: the scan must end OK with ascending keys (oracle only: the rows
+	// are too large for the model's evaluation)
+	for _, en := range leveldbEngines() {
+		drop := Call{Req: Req{Kind: "drop", Table: concTable, All: true}, Now: 1}
+		wr := Call{Req: Req{Kind: "mutate", Table: concTable, Key: scanKey(30), Muts: []Mutation{{Kind: "set", Fam: "cf", Q: []byte("late"), Ts: 1000, V: []byte("w")}}}, Now: 5000}
+		scan := Call{Req: Req{Kind: "read", Table: concTable}, Now: 1}
+		for _, sc := range []struct {
+			writers []Call
+			sched   []int
+			tag     string
+		}{
+			{[]Call{drop}, []int{0, 0, 1, 0, 0, 0}, "big-one-clear"},
+			{[]Call{drop, drop}, []int{0, 0, 1, 1, 0, 0, 0}, "big-two-clears"},
+			{[]Call{drop, wr, drop}, []int{0, 0, 1, 0, 1, 1, 1, 0, 1, 0, 0}, "big-clear-write-clear"},
+		} {
+			cc := runConc(en, bigTableSetup(), [][]Call{{scan}, sc.writers}, sc.sched, nil, nil, sc.tag)
+			if cc == nil {
+				continue
+			}
+			pc := cc.pseudo()
+			for i := range pc.Obs {
+				if pc.Prog[i].Req.Kind == "read" && pc.Obs[i].Panic == "" {
+					if pc.Obs[i].Code != 0 {
+						pc.Obs[i].Notes = append(pc.Obs[i].Notes, fmt.Sprintf("the scan ended with status %d", pc.Obs[i].Code))
+					}
+					for k := 1; k < len(pc.Obs[i].Rows); k++ {
+						if string(pc.Obs[i].Rows[k-1].Key) >= string(pc.Obs[i].Rows[k].Key) {
+							pc.Obs[i].Notes = append(pc.Obs[i].Notes, "the scan's rows are not in strictly ascending key order")
+						}
+					}
+				}
+			}
+			js, _ := json.Marshal(cc)
+			sink.AddOracleOnly(pc, string(js), js, true)
+		}
+	}
 	sink.Close(fmt.Sprintf("ReadRows scans over %d rows of 1050 cells each (every row forces a hand-over: more than the flush threshold of pending chunks) with full-table, two-range and keys+range+limit RowSets; at every hand-over a writer (MutateRow set+delete-column, DeleteFromRow, ReadModifyWriteRow, MutateRows incl. a new row) acts on the row before / at / after the scan position, plus schedules where a writer is parked inside its section when the scan wants the lock back and two-writer schedules; both leveldb engines; every scheduler step (parked / blocked / returned + rows) is compared with the snapshot-per-range interleaving model, then a full read; thorough adds random three-thread schedules; non-trivial = some step was blocked", nrows), false)
 }
 
@@ -641,4 +679,17 @@ func genC16(out, tier string, rng *rand.Rand) {
 		sink.AddPreV("seq", "check_all", "(list call * list bresp)", r.c, r.text, r.js, progNontrivial(r.c))
 	}
 	sink.Close(fmt.Sprintf("(a) a forced GC pass over %d rows (union of max-versions 1 and max-age 1000 s, the newest cells exactly at the cut-off; every 7th row loses all cells; a rule-less family) interleaved with a writer (MutateRow, ReadModifyWriteRow, a new row) acting during the first or second lock hand-over on rows already / not yet visited, and schedules where the writer holds the lock when the pass wants it; 3 engines; compared step by step with the interleaving model, then a full read. (b) tag policy/boundary: sequential random programs with random GC rule trees and forced passes, and cells exactly at / around the max-age cut-off. non-trivial = a blocked step (a) or a successful write and non-empty read (b)", nrows), false)
+}
+
+// bigTableSetup: a table large enough to live in leveldb table files (24 rows of 1050 cells of 600
+// bytes, about 15 MB): iterators then read through table readers, which is where closing or swapping
+// the database under a scan shows.
+func bigTableSetup() []Call {
+	setup := []Call{{Req: Req{Kind: "create", Parent: parentA, Tid: "t1", Fams: []FamDef{{Name: "cf"}}}, Now: 1000000}}
+	big := bytes.Repeat([]byte("v"), 600)
+	for i := 0; i < 24; i++ {
+		b := BulkRow{Key: scanKey(i), Fam: "cf", NQ: 3, NV: 350, Base: 1000000, V: big}
+		setup = append(setup, Call{Req: Req{Kind: "mutate", Table: concTable, Key: b.Key, Muts: b.muts()}, Now: 1000000})
+	}
+	return setup
 }
